@@ -84,6 +84,27 @@ func (P *Program) verifyFunction(con *Contract) (res *FuncResult) {
 		g.assume(t)
 	}
 	g.cover("pre", "true")
+	// replay oracles: each ensures clause over free result variables (evaluated on the entry state)
+	oracles := map[int]string{}
+	var oracleRes []modelVar
+	func() {
+		defer func() { recover() }() // oracle construction is best effort
+		var obs []Val
+		for i := 0; i < fn.Signature.Results().Len(); i++ {
+			rt := fn.Signature.Results().At(i).Type()
+			v := g.declare(fmt.Sprintf("obs%d", i), g.S.sortOf(rt))
+			obs = append(obs, Val{T: rt, S: v})
+			oracleRes = append(oracleRes, modelVar{Name: fmt.Sprintf("result%d", i), Term: v, T: rt})
+		}
+		for ei, en := range con.Ensures {
+			func() {
+				defer func() { recover() }()
+				ctx := &specCtx{fr: fr, st: fr.entry, old: fr.entry, kind: ctxPost, pkg: con.Pkg, results: obs}
+				t := fr.evalBool(en.Expr, ctx)
+				oracles[ei] = strings.Join(g.lines, "\n") + "\n;;ORACLE-INPUTS\n(assert " + not(t) + ")\n"
+			}()
+		}
+	}()
 	fr.run(st)
 	// ensures at each return
 	for ri, r := range fr.rets {
@@ -97,7 +118,10 @@ func (P *Program) verifyFunction(con *Contract) (res *FuncResult) {
 				nm = en.Tag
 			}
 			o := g.oblige("post", nm+"@"+site, r.st.path, t, "ensures "+en.Text)
-			_ = o
+			if oc, ok := oracles[ei]; ok && o.script != "TRIVIAL" {
+				o.oracle = oc
+				o.oracleRes = oracleRes
+			}
 		}
 		if con.HasAssigns {
 			fr.frameObligation(r.st, site)
